@@ -94,6 +94,7 @@ def execute(history, parent_key):
     err = None
     last_raised = False
     last_names = set()
+    shared = []                 # anonymous windows the root accepted: (map, the names it exports)
     for pos, op in enumerate(history):
         last = pos == len(history) - 1
         kind = op[0]
@@ -126,6 +127,7 @@ def execute(history, parent_key):
                 newnames = set(direct) | set(inner)
                 exp_ok = not any(conflicts(n, visible) for n in newnames)
                 root.add_window(w)
+                shared.append((w, frozenset(newnames)))
             elif kind == "win_inner":
                 nm, inner = op[1], op[2]
                 exp_ok = not conflicts(nm, visible)
@@ -142,6 +144,7 @@ def execute(history, parent_key):
                 newnames = {subname}
                 exp_ok = not conflicts(subname, visible)
                 root.add_window(w)
+                shared.append((w, frozenset(newnames)))
             elif kind in ("win_oob", "win_ratio"):
                 exp_ok = False if kind == "win_oob" else None      # inadmissible dense ratio: either (as in C02)
                 newnames = {op[1]}
@@ -231,6 +234,36 @@ def execute(history, parent_key):
                     err = dict(msg=f"after the refused call {history[-1]} the legal name {n} is refused: {type(e).__name__}",
                                signature=dict(kind="oracle", what="refusal_left_traces"))
                     break
+    if err is None and shared:
+        # The same (frozen) sub-map may be a window of a second parent.  There, exactly the names the window exports are
+        # taken: names that only the FIRST parent uses are free, whatever was added to the first parent afterwards.
+        w, exported = shared[0]
+        p2 = MemoryMap(addr_width=10, data_width=8)
+        try:
+            p2.add_window(w)
+        except Exception as e:
+            err = dict(msg=f"a second, empty parent refuses the anonymous window the first parent accepted: {type(e).__name__}: {str(e)[:100]}",
+                       signature=dict(kind="oracle", what="second_parent"))
+        taken2 = set(exported)
+        for n in sorted(visible, key=repr):
+            if err is not None:
+                break
+            legal = not conflicts(n, taken2)
+            try:
+                p2.add_resource(res(), name=n, size=1)
+                ok = True
+            except (ValueError, TypeError):
+                ok = False
+            except Exception as e:
+                err = dict(msg=f"second parent, name {n}: {type(e).__name__}: {e}", signature=dict(kind="oracle", what="internal_error"))
+                break
+            if ok != legal:
+                err = dict(msg=f"a second parent holding only the anonymous window with names {sorted(map(str, exported))} "
+                               f"{'refuses the legal' if legal else 'accepts the conflicting'} name {n} "
+                               f"(names of the first parent: {sorted(map(str, visible))})",
+                           signature=dict(kind="oracle", what="second_parent"))
+            elif ok:
+                taken2.add(n)
     return canon, err
 
 
